@@ -1,5 +1,6 @@
 """Rules over dateutil.tz shared by C04, C05 and C06."""
 import ast
+import re
 
 from .model import src, walk_local, AnalysisError, FuncInfo, ClassInfo
 from .cfg import ReachingDefs
@@ -396,15 +397,39 @@ def check_struct(ctx, rule):
 def check_ttinfo(ctx, rule):
     prog = ctx.prog
     rt = prog.func("tz.tz.tzfile._read_tzfile", rule)
-    a = {src(n.targets[0]): norm(src(n.value)) for n in walk_local(rt.node) if isinstance(n, ast.Assign) and src(n.targets[0]).startswith("tti.")}
-    want = {"tti.offset": "gmtoff", "tti.dstoffset": None, "tti.delta": "datetime.timedeltaseconds=gmtoff", "tti.isdst": "isdst",
-            "tti.abbr": norm("abbr[abbrind:abbr.find('\\x00', abbrind)]"), "tti.isstd": norm("ttisstdcnt > i and isstd[i] != 0"), "tti.isgmt": norm("ttisgmtcnt > i and isgmt[i] != 0")}
+    from .rules_common import value_set
+    cfg = ctx.cfg(rt)
+    got = {}
+    for n in cfg.live_nodes():
+        if n.kind == "stmt" and isinstance(n.ast, ast.Assign) and isinstance(n.ast.targets[0], ast.Attribute) and src(n.ast.targets[0].value) == "tti":
+            vals = value_set(ctx, rt, n, n.ast.value, stop=lambda v: any(isinstance(y, ast.Call) and src(y.func) in ("struct.unpack", "fileobj.read") for y in ast.walk(v)))
+            got.setdefault("tti." + n.ast.targets[0].attr, set()).update(norm(v) for v in vals)
+    recs = set()
+    for vs in got.values():
+        for v in vs:
+            for m_ in re.finditer(r"(\w+)\[i\]\[([012])\]", v):
+                recs.add(m_.group(1))
+    R = sorted(recs)[0] if len(recs) == 1 else "ttinfo"
+    want = {"tti.offset": "_get_supported_offset%s[i][0]" % R, "tti.delta": "datetime.timedeltaseconds=_get_supported_offset%s[i][0]" % R, "tti.isdst": "%s[i][1]" % R,
+            "tti.abbr": norm("abbr[%s[i][2]:abbr.find('\\x00', %s[i][2])]" % (R, R)), "tti.isstd": norm("ttisstdcnt > i and isstd[i] != 0"),
+            "tti.isgmt": norm("ttisgmtcnt > i and isgmt[i] != 0")}
     for k, w in want.items():
-        if w is None:
-            continue
-        ctx.ob(rule, rt, "%s is taken from the record as the format prescribes" % k, a.get(k) == w, construct="%s = ..." % k, detail="" if a.get(k) == w else "found %s" % a.get(k), analysis="FIELD wiring")
-    up = [src(n.value) for n in walk_local(rt.node) if isinstance(n, ast.Assign) and norm(src(n.targets[0])) == "gmtoff,isdst,abbrind"]
-    ctx.ob(rule, rt, "a ttinfo record is (utc offset, isdst, abbreviation index)", up == ["ttinfo[i]"] and norm("struct.unpack('>lbb', fileobj.read(6))") in norm(src(rt.node)), construct="ttinfo record layout")
+        ok = got.get(k) == {w}
+        ctx.ob(rule, rt, "%s is taken from the record as the format prescribes (record = (utc offset, isdst, abbreviation index))" % k, ok, construct="%s = ..." % k,
+               detail="" if ok else "found %s" % sorted(got.get(k, [])), analysis="FIELD wiring: reaching definitions expanded to value sets")
+    # the records are the '>lbb' unpackings, one per type
+    srcs_ = []
+    for x in walk_local(rt.node):
+        if isinstance(x, ast.Call) and src(x.func) == "struct.unpack" and x.args and isinstance(x.args[0], ast.Constant) and x.args[0].value == ">lbb":
+            srcs_.append(x)
+    holders = set()
+    for x in walk_local(rt.node):
+        if isinstance(x, ast.Call) and isinstance(x.func, ast.Attribute) and x.func.attr == "append" and x.args and any(y in srcs_ for y in ast.walk(x.args[0])):
+            holders.add(src(x.func.value))
+        if isinstance(x, ast.Assign) and isinstance(x.value, ast.ListComp) and any(y in srcs_ for y in ast.walk(x.value.elt)):
+            holders.add(src(x.targets[0]))
+    ctx.ob(rule, rt, "a ttinfo record is the 6-byte structure '>lbb' (utc offset, isdst, abbreviation index)", len(srcs_) == 1 and holders == {R}, construct="ttinfo record layout",
+           detail="" if (len(srcs_) == 1 and holders == {R}) else "unpack sites=%d holders=%s records read from %s" % (len(srcs_), sorted(holders), R))
     ctx.ob(rule, rt, "each transition refers to its ttinfo by index", "out.trans_idx = [out.ttinfo_list[idx] for idx in out.trans_idx]" in src(rt.node), construct="trans_idx mapping")
     # the period before the first transition: the first standard type, else the first type
     t = norm(src(rt.node))
